@@ -23,3 +23,7 @@ CHECK = dict(
     level_note='Trusted: engine/vsched.c (scheduler, TSan-ABI runtime), the ghost ownership oracle, gcc -fsanitize=thread instrumentation.',
     design_ref='DESIGN.md sections 2.2 and 4 (C04)',
 )
+
+# build variants (bin/checks.py): only -DNDEBUG (side effects inside assert) - the schedule exploration is too expensive to repeat on every build
+CHECK['variants'] = [('c04', ['gcc -O2 -DNDEBUG']), 'c04deep']	# the cheap deterministic families run on every build
+CHECK['variant_tiers'] = {'gcc -O2 -DNDEBUG': ('quick',)}
